@@ -217,6 +217,23 @@ def main():
     import threading
 
     threading.Thread(target=_watchdog, daemon=True).start()
+    # a runaway implementation (or harness) must not take the machine down: if this process grows beyond VERIF_MEM_GB (resident), the check ends
+    # with exit 2 (no verdict).  (An address-space limit is not used: it would be inherited by the Lean processes, which reserve far more.)
+    def _memdog():
+        cap = float(os.environ.get("VERIF_MEM_GB", "20")) * 2**30
+        page = os.sysconf("SC_PAGE_SIZE")
+        while True:
+            time.sleep(2)
+            try:
+                rss = int(open("/proc/self/statm").read().split()[1]) * page
+            except Exception:  # noqa: BLE001
+                return
+            if rss > cap:
+                sys.stdout.write(f"MEMORY: check {prop} grew beyond {cap / 2**30:.0f} GB resident (infrastructure, not a verdict)\n")
+                sys.stdout.flush()
+                os._exit(2)
+
+    threading.Thread(target=_memdog, daemon=True).start()
 
     cov = start_coverage() if os.environ.get("VERIF_COVERAGE", "1") != "0" and not args.replay else None
     mod = importlib.import_module(f"corr_{prop}")
